@@ -27,6 +27,9 @@ from common import Result, driver_batch, load_corpus, use_repo
 import framegen as fg
 import pipefake
 import producer
+import fanout
+import strshapes
+import watchdog
 from c09_payloads import PAYLOADS
 
 use_repo()
@@ -232,13 +235,21 @@ def run_case(case):
                     nextf = max(nextf, hit[0] + 1)
 
         for bi, batch in enumerate(case["batches"]):
-            cl = [classify(fr, proto) for fr in batch]
-            frames.extend(cl)
             held = bi == 0 and bool(case.get("hold"))
-            words.append((["H"] if held else []) + [c["word"] for c in cl])
-            reader.feed_data(b"".join(wire(fr) for fr in batch))
-            loop.settle()
-            attribute()
+            # one step = the frames of this batch are received and the loop runs until nothing more can happen.  The step
+            # (the twin decoding of classify() included: it is the same decoder) runs under a CPU watchdog: a frame whose
+            # handling does not come back is "a received frame that stalls the pipeline", not a harness timeout
+            with watchdog.Watchdog(watchdog.bound(len(batch))) as dog:
+                loop.dog = dog
+                cl = [classify(fr, proto) for fr in batch]
+                frames.extend(cl)
+                words.append((["H"] if held else []) + [c["word"] for c in cl])
+                reader.feed_data(b"".join(wire(fr) for fr in batch))
+                loop.settle()
+                attribute()
+            loop.dog = None
+            if dog.fired:
+                return dict(stalled=dict(batch=bi, cpu_s=dog.cpu_s))
             snaps.append(dict(delivered=list(delivered), unfinished=proto._queues.read._unfinished_tasks, alive=consumers_alive()))
             if held:
                 # the class loading completes (for every address that asked): an empty batch for the model
@@ -503,6 +514,95 @@ def burst_cases(rng, sizes):
         yield dict(consumers=1 + i % 5, net=i % len(NETS), batches=[frames, tail], hold=True)
 
 
+# ---- string-bearing payloads drawn from shapes (strshapes.py) ----
+
+UID_HEAD = bytes.fromhex(PAYLOADS[185][0][1])[:19]          # type, id, uid (length-prefixed), logo, image: up to the model-name length byte
+NET_HEAD = bytes.fromhex(PAYLOADS[176][0][1])[:-6]          # device-available payload up to the SSID length byte
+STRING_PLACES = ["uid-model", "password", "ssid", "regdata-string", "uid-uid"]
+
+
+def string_frames(rng, place=None, family=None):
+    """-> (label, [frame spec…]) : one received message whose payload carries a text of a shape family, at lengths up to
+    the wire limit of the field"""
+    place = place or rng.choice(STRING_PLACES)
+    if place == "uid-model":
+        fam, t = strshapes.shape(rng, 255, family)
+        return f"{place}:{fam}", [F(UID, UID_HEAD + bytes([len(t)]) + t)]
+    if place == "uid-uid":     # the length-prefixed uid bytes in front of the model name
+        fam, t = strshapes.shape(rng, 255, family)
+        name = b"EM350P2-ZF"
+        return f"{place}:{fam}", [F(UID, UID_HEAD[:3] + bytes([len(t)]) + t + UID_HEAD[15:19] + bytes([len(name)]) + name)]
+    if place == "password":
+        fam, t = strshapes.shape(rng, rng.choice([255, 600, 989]), family)
+        return f"{place}:{fam}", [F(PASSWORD, bytes([len(t) & 0xFF]) + t)]
+    if place == "ssid":
+        fam, t = strshapes.shape(rng, 255, family)
+        return f"{place}:{fam}", [F(DA_RESP, NET_HEAD + bytes([len(t)]) + t)]
+    # null-terminated strings of regulator data: a schema of 1..3 string entries (type ids 11 / 12), then the data message
+    k = rng.randint(1, 3)
+    texts, fams = [], []
+    for _ in range(k):
+        fam, t = strshapes.shape(rng, 300, family)
+        texts.append(t.replace(b"\0", b"?"))
+        fams.append(fam)
+    schema = bytes([k, 0]) + b"".join(bytes([rng.choice([11, 12]), 100 + i, 0]) for i in range(k))
+    body = bytes.fromhex("62640001") + b"\0" + b"".join(t + b"\0" for t in texts)
+    if rng.random() < 0.3:
+        body = body[:-1]                                       # the last terminator is missing
+    return f"{place}:{fams[0]}", [F(213, schema), F(8, body)]
+
+
+def string_cases(rng, k):
+    """string-bearing frames between markers and controller requests; every place x every shape family comes up"""
+    combos = [(p, f) for p in STRING_PLACES for f in strshapes.FAMILIES]
+    rng.shuffle(combos)
+    for i in range(k):
+        n = 1 + i % 5
+        frames = [marker(0)]
+        labels = []
+        for j in range(rng.choice([1, 1, 2, 3])):
+            place, fam = combos[(i * 3 + j) % len(combos)] if j == 0 else (None, None)
+            label, frs = string_frames(rng, place, fam)
+            labels.append(label)
+            frames.extend(frs)
+            if rng.random() < 0.4:
+                frames.append(rng.choice([F(CD_REQ), F(PV_REQ), marker(10 + j)]))
+        frames += [marker(1), F(CD_REQ), F(PV_REQ), marker(2)]
+        yield dict(consumers=n, net=i % len(NETS), batches=rebatch(rng, frames, mode=["single", "one", "random"][i % 3]),
+                   hold=(i % 5 == 2), strings=labels)
+
+
+def identical_cases(rng, k):
+    """byte-identical consecutive frames (2..4 repeats): as the very first frames from the address (with the device class
+    still loading, and not), and again later; data frames of several kinds, markers and controller requests.  Every one of
+    them is a received frame: each is delivered / answered once"""
+    for i in range(k):
+        n = 1 + i % 5
+
+        def pick():
+            r = rng.random()
+            if r < 0.4:
+                return marker(rng.randrange(50))
+            if r < 0.75:
+                kind = rng.choice([x for x in DATA_KINDS if x not in STATEFUL])
+                return F(kind, valid(kind, rng), sender=rng.choice([ECOMAX] * 6 + [ECOSTER]))
+            if r < 0.9:
+                return rng.choice([F(CD_REQ), F(PV_REQ)])
+            return undecodable(rng, kinds=[x for x in DATA_KINDS if x not in STATEFUL])
+        first = pick() if i % 4 else marker(7)
+        frames = [dict(first) for _ in range(rng.randint(2, 4))]
+        for _ in range(rng.randint(0, 3)):
+            frames.append(pick())
+        again = rng.choice([first, pick()])
+        frames.extend(dict(again) for _ in range(rng.randint(2, 4)))
+        if rng.random() < 0.5:
+            frames.append(pick())
+            frames.extend(dict(first) for _ in range(2))       # … and the first one again after something else
+        frames += [F(CD_REQ), marker(99)]
+        yield dict(consumers=n, net=i % len(NETS), batches=rebatch(rng, frames, mode=["one", "random", "single"][i % 3]),
+                   hold=(i % 2 == 0), identical=True)
+
+
 def random_net(rng):
     def ip():
         return ".".join(str(rng.randrange(256)) for _ in range(4))
@@ -518,8 +618,86 @@ def random_net(rng):
 
 # ------------------------------------------------------------------ evaluation
 
+MAX_STALLS = 3   # every stalled step costs its whole CPU bound: after this many the run stops looking for more
+STALL = dict(count=0, payloads=set())
+
+
+def probe_stall(consumers, net, fr, after=None):
+    """ONE frame through a real AsyncProtocol (no twin decoding): a marker first (the device exists), then the frame,
+    the loop run to quiescence under the watchdog.  -> dict(stalled, cpu_s, later_delivered, later_answered)"""
+    after = after or [marker(1), F(CD_REQ)]
+    seen = []
+    with pipefake.Driven() as loop:
+        eth, wlan = net_objects(NETS[net] if isinstance(net, int) else net)
+        proto = AsyncProtocol(ethernet_parameters=eth, wireless_parameters=wlan, consumers_count=consumers)
+        reader, writer = asyncio.StreamReader(), pipefake.FakeWriter()
+        loop.call_soon(proto.connection_established, reader, writer)
+        loop.settle()
+        reader.feed_data(wire(marker(0)))
+        loop.settle()
+        dev = proto.data.get("ecomax")
+        if dev is not None:
+            async def on_password(v):
+                seen.append(v)
+            dev.subscribe("password", on_password)
+        with watchdog.Watchdog(watchdog.bound(1 + len(after))) as dog:
+            loop.dog = dog
+            reader.feed_data(wire(fr) + b"".join(wire(x) for x in after))
+            loop.settle()
+            for _ in range(4):
+                reader.feed_data(IDLE)
+                loop.settle()
+        loop.dog = None
+        answered = sum(1 for b in writer.frames if len(b) >= 10 and b[7] == DA_RESP)
+        return dict(stalled=dog.fired, cpu_s=dog.cpu_s, later_delivered=len(seen), later_answered=answered)
+
+
+def report_stall(res, case, r):
+    """a step of the run did not come back within its CPU bound: find the frame, record the failing input"""
+    STALL["count"] += 1
+    bi = r["stalled"]["batch"]
+    batch = case["batches"][bi]
+    n, net = case["consumers"], case["net"]
+    res.count("stalled-steps")
+    for fr in batch:
+        if fr.get("env", "ok") != "ok":
+            continue
+        key = (fr["kind"], fr["payload"])
+        p = probe_stall(n, net, fr)
+        if p["stalled"]:
+            STALL["payloads"].add(key)
+            res.fail("spec", dict(via="stall", consumers=n, net=net, frame=fr, cpu_bound_s=p["cpu_s"]),
+                     "the frame is handled (delivered, or dropped when it cannot be decoded) and the pipeline goes on: the marker and "
+                     "the check-device request received right after it are delivered / answered",
+                     dict(handling_came_back=False, cpu_s_used_before_the_harness_cut_it=p["cpu_s"],
+                          later_marker_delivered=p["later_delivered"], later_request_answered=p["later_answered"],
+                          text=bytes.fromhex(fr["payload"])[-60:].decode("latin-1")),
+                     f"a received frame (kind {fr['kind']}) stalls the pipeline: its handling monopolised the event loop for more than "
+                     f"{p['cpu_s']:.0f} s of CPU (normal cost: milliseconds); nothing is delivered or answered meanwhile")
+            return
+    # no single frame of the step stalls on its own: the sequence up to the step is the failing input
+    inp = dict(consumers=n, net=net, batches=case["batches"][:bi + 1], hold=bool(case.get("hold")))
+    res.fail("spec", inp, "every step (frames received, loop run to quiescence) ends", r["stalled"],
+             f"a step of the run did not come back within {r['stalled']['cpu_s']:.0f} s of CPU: received frames stall the pipeline")
+
+
 def evaluate(res, cases):
-    runs = [run_case(c) for c in cases]
+    runs, kept = [], []
+    for c in cases:
+        if STALL["count"] >= MAX_STALLS:
+            res.count("not-run:after-%d-stalled-steps" % MAX_STALLS)
+            continue
+        if STALL["payloads"] and any((fr["kind"], fr["payload"]) in STALL["payloads"] for b in c["batches"] for fr in b):
+            res.count("not-run:contains-a-frame-already-reported-as-stalling")
+            continue
+        r = run_case(c)
+        if r.get("stalled"):
+            res.case(("stall", json.dumps(c["batches"][r["stalled"]["batch"]], sort_keys=True)), nontrivial=True)
+            report_stall(res, c, r)
+            continue
+        kept.append(c)
+        runs.append(r)
+    cases = kept
     model = driver_batch(
         f"c09 1 {c['consumers']} {net_word(c)} {VER_WORD} " + " | ".join(" ".join(ws) for ws in r["words"]) for c, r in zip(cases, runs))
     judge = driver_batch(
@@ -542,6 +720,11 @@ def evaluate(res, cases):
         res.count(f"controller-requests:{min(nreq, 5)}")
         inp = dict(consumers=case["consumers"], net=case["net"], batches=case["batches"], hold=bool(case.get("hold")))
         res.count(f"first-batch-held:{int(bool(case.get('hold')))}")
+        for lab in case.get("strings", []):
+            res.count("string:" + lab.split(":")[0])
+            res.count("string-shape:" + lab.split(":")[1])
+        if case.get("identical"):
+            res.count("identical-consecutive-frames" + (":first-frames-while-class-loading" if case.get("hold") else ""))
         if case.get("hold") and r["snaps"] and r["snaps"][0]["unfinished"] > case["consumers"]:
             res.count("held-with-more-frames-than-consumers")
         obs_final = show_snap(r["final"], r["final"]["responses"])
@@ -596,6 +779,8 @@ def evaluate(res, cases):
 
 def spec_fails(case):
     r = run_case(case)
+    if r.get("stalled"):
+        return False
     words = [w for ws in r["words"] for w in ws if w != "H"]
     if not words:
         return False
@@ -676,12 +861,14 @@ def run(ctx):
                 "decodable kind cut at truncation points, random payloads, out-of-table ids (schema type >= 17, schedule >= 40, "
                 "31-day-month alert dates, counts beyond the payload), controller requests 64/48 (and from ecoSTER / addresses "
                 "without a device class), other requests, frames the reader rejects; bursts of undecodable frames larger than the "
-                "consumer pool, followed by valid marker frames; maximum-length (1000-byte) frames, decodable and not, carrying a complete small frame near their tail; bursts of 35..2200 frames in one chunk while all consumers are held up in the first device creation. distinct = (consumers, network, classified sequence, payloads); "
+                "consumer pool, followed by valid marker frames; string-bearing payloads (UID model name and uid, password, SSID of a device-available frame, null-terminated regulator-data strings) with texts drawn from shape families (runs of letters, words and repeated blanks, digits, letters+1..4 digits, repeated separators, two-character periods, multi-byte and invalid UTF-8) at lengths up to the wire limit of the field; byte-identical consecutive frames (2..4 repeats, as first frames and later); every step under a CPU watchdog (a step that does not come back = a frame that stalls the pipeline); maximum-length (1000-byte) frames, decodable and not, carrying a complete small frame near their tail; bursts of 35..2200 frames in one chunk while all consumers are held up in the first device creation. distinct = (consumers, network, classified sequence, payloads); "
                 "non-trivial = at least one raising frame together with a valid frame or a controller request")
     cases = [parse_case(ln) for _, ln in load_corpus("C09")]
     cases.extend(big_cases(random.Random(1000), 6))            # maximum-length frames (boundary of the reader's length gate)
     cases.extend(big_cases(rng, 30 if ctx["tier"] == "quick" else 300))
     cases.extend(burst_cases(rng, [40, 60, 130, 150, 1100] if ctx["tier"] == "quick" else [35, 40, 60, 110, 130, 150, 300, 700, 1100, 2200]))
+    cases.extend(string_cases(rng, 180 if ctx["tier"] == "quick" else 3000))
+    cases.extend(identical_cases(rng, 120 if ctx["tier"] == "quick" else 2000))
     if ctx["tier"] == "thorough":
         cases.extend(truncation_cases(rng, "all"))
         for _ in range(15000):
@@ -709,6 +896,7 @@ def run(ctx):
             k = rng.randint(1, min(len(frs), 8))
             streams.append(b"".join(wire(fr) for fr in frs[:k]))
     loss_with_backlog(res)
+    fanout.run_section(res, rng, 150 if ctx["tier"] == "quick" else 4000, "C09")
     producer.run_section(res, rng, 400 if ctx["tier"] == "quick" else 6000, "C09", streams)
     res.rule += ("; producer stage: byte streams of such frames and noise x write-fault scripts (OSError / timeout at any cycle), "
                  "puts by other tasks at any cycle boundary, foreign disconnects, end of stream or silence, compared with the "
@@ -724,6 +912,19 @@ def replay(ctx):
         res.rule = "replay of one recorded producer run"
         producer.replay_case(res, inp, "C09")
         res.case(inp["stream"])
+        return res
+    if inp.get("via") == "fanout":
+        res.rule = "replay of one recorded sub-device fan-out run"
+        fanout.replay_case(res, inp, "C09")
+        res.case(json.dumps(inp["frames"]))
+        return res
+    if inp.get("via") == "stall":
+        res.rule = "replay of one recorded frame that stalled the pipeline"
+        res.case(json.dumps(inp["frame"], sort_keys=True))
+        p = probe_stall(inp["consumers"], inp["net"], inp["frame"])
+        if p["stalled"]:
+            res.fail("spec", inp, "the frame is handled and the pipeline goes on", p,
+                     f"a received frame (kind {inp['frame']['kind']}) stalls the pipeline: handling used more than {p['cpu_s']:.0f} s of CPU")
         return res
     res.rule = "replay of one recorded frame sequence"
     evaluate(res, [dict(consumers=inp["consumers"], net=inp["net"], batches=inp["batches"], hold=bool(inp.get("hold")))])
